@@ -122,10 +122,46 @@ def run(crate, harnesses, unwind=None, jobs=8, harness_timeout=300, overall_time
     return parse(out, harnesses), meta
 
 
-def playback(crate, harness_full, workdir):
-    """Concrete playback: ask Kani for the counterexample as a unit test and run it natively against the
-    working tree.  Returns dict(ok, test_src, native_output)."""
+def replay(crate, harness_full, harness_file, unwind=4, timeout=900):
+    """Ask Kani for the counterexample of a failed harness as a concrete-playback unit test, put it into the replay slot
+    (<harness_file minus .rs>.playback.rs, included by the harness module) and run it NATIVELY against the working tree.
+    Returns dict(reproduced: bool, test_src, values_comment, native_tail, note)."""
+    res = {'reproduced': False, 'test_src': '', 'native_tail': '', 'note': ''}
+    slot = harness_file[:-3] + '.playback.rs'
+    if not os.path.exists(slot):
+        res['note'] = 'no replay slot for this harness module'
+        return res
     cwd = os.path.join(REPO, 'crates', crate)
-    cmd = ['cargo', 'kani', '-Z', 'function-contracts', '-Z', 'stubbing', '-Z', 'concrete-playback',
-           '--concrete-playback=print', '--exact', '--harness', harness_full]
-    return cmd, cwd
+    cmd = ['cargo', 'kani', '-Z', 'function-contracts', '-Z', 'stubbing', '-Z', 'concrete-playback', '--concrete-playback=print',
+           '--default-unwind', str(unwind), '--exact', '--harness', harness_full]
+    try:
+        p = subprocess.run(cmd, cwd=cwd, env=_env(), capture_output=True, text=True, timeout=timeout)
+    except subprocess.TimeoutExpired:
+        res['note'] = 'kani --concrete-playback=print timed out'
+        return res
+    out = p.stdout + p.stderr
+    m = re.search(r'Concrete playback unit test for `[^`]+`:\s*```\n(.*?)```', out, re.S)
+    if not m:
+        res['note'] = 'Kani produced no concrete playback test (e.g. failure is an unwinding/unsupported-construct check)'
+        return res
+    test_src = m.group(1)
+    res['test_src'] = test_src
+    header = open(slot).read().split('\n')[0]
+    e = _env()
+    e['CARGO_TARGET_DIR'] = os.path.join(CACHE, 'kani-playback-target')
+    try:
+        with open(slot, 'w') as f:
+            f.write(header + '\n' + test_src)
+        q = subprocess.run(['cargo', 'kani', 'playback', '-Z', 'concrete-playback', '--lib', '--', 'kani_concrete_playback'],
+                           cwd=cwd, env=e, capture_output=True, text=True, timeout=timeout)
+        nat = q.stdout + q.stderr
+    except subprocess.TimeoutExpired:
+        nat = 'native playback timed out'
+    finally:
+        with open(slot, 'w') as f:
+            f.write(header + '\n')
+    res['native_tail'] = nat[-5000:]
+    res['reproduced'] = bool(re.search(r'test result: FAILED', nat)) and 'kani_concrete_playback' in nat
+    if not res['reproduced']:
+        res['note'] = 'the counterexample did not fail natively'
+    return res
